@@ -17,6 +17,12 @@ func AlphabetA(paths []string, contents []string, mkdirAll []string, removeAll [
 			a = append(a, ops.Op{K: "put", P: p, C: c})
 		}
 	}
+	// the same content as a plain put, written as Write; Sync; Write; Close on one handle (two flushes of the write buffer)
+	for i, p := range paths {
+		if i < 2 && len(contents) > 1 {
+			a = append(a, ops.Op{K: "putp", P: p, C: contents[1], N: 1})
+		}
+	}
 	for _, p := range paths {
 		a = append(a, ops.Op{K: "remove", P: p})
 	}
@@ -282,6 +288,8 @@ func FaultAlphabet(full bool) []ops.Op {
 		{K: "hread", H: 0, N: 3},
 		{K: "hreadall", H: 0},
 		{K: "hwrite", H: 1, C: "Q"},
+		{K: "hseek", H: 1, N: 0},
+		{K: "htrunc", H: 1, N: 2},
 		{K: "hsync", H: 1},
 		{K: "hclose", H: 0},
 		{K: "hclose", H: 1},
@@ -432,6 +440,8 @@ func DeepAlphabet() []ops.Op {
 		{K: "remove", P: "/m/c05"}, {K: "rename", P: "/m", Q: "/p/m"},
 		{K: "rename", P: "/p", Q: "/p/q/moved"}, {K: "rename", P: "/p/q", Q: "/p/q/r/s/t"}, {K: "rename", P: "/p", Q: "/p/moved"},
 		{K: "mkdirall", P: "/p/x/p"}, {K: "mkdir", P: "/p/x/p/y"}, {K: "put", P: "/p/x/p/q", C: "same names at two depths"},
+		// a child that is named like its parent, and one named like the root's listing name
+		{K: "mkdir", P: "/p/p"}, {K: "put", P: "/p/p/p", C: "named like its parent"}, {K: "rename", P: "/p/f", Q: "/p/p/f"},
 	}
 	return a
 }
@@ -456,6 +466,20 @@ func MarkerSetup() []ops.Op {
 		{K: "mkdir", P: d + "/" + Marker + "-sub"},
 		{K: "put", P: d + "/" + Marker + "-sub/" + Marker + "-c3", C: "T600:1"},
 		{K: "put", P: "/" + Marker + "-file", C: "content " + Marker},
+	}
+}
+
+// BigMoveSetup/BigMoveAlphabet: a directory whose first child is a file of more than two blocks, followed by further
+// children (so that recursive move / delete archives hold a record with a large UncompressedSize in the middle), and the
+// calls that come after such an archive.
+func BigMoveSetup() []ops.Op {
+	return []ops.Op{{K: "mkdir", P: "/d"}, {K: "put", P: "/d/a", C: "T3000"}, {K: "put", P: "/d/b", C: "x"}, {K: "mkdir", P: "/d/c"}}
+}
+func BigMoveAlphabet() []ops.Op {
+	return []ops.Op{
+		{K: "rename", P: "/d", Q: "/e"}, {K: "removeall", P: "/d"}, {K: "removeall", P: "/e"}, {K: "mkdir", P: "/n"}, {K: "put", P: "/m", C: "y"},
+		{K: "remove", P: "/d/b"}, {K: "rename", P: "/d/a", Q: "/d/z"}, {K: "chmod", P: "/d/a", N: 0o600}, {K: "chmod", P: "/d", N: 0o700}, {K: "put", P: "/e/b", C: "T1100:2"},
+		{K: "rename", P: "/e", Q: "/d"}, {K: "rebuild"}, {K: "reopen"},
 	}
 }
 
